@@ -15,6 +15,10 @@ type gen struct {
 	budget  int  // remaining node budget of the tree
 	natives bool
 	deploys int
+	bulk    int  // bulk notify nodes: at most two per tree
+	regs    int  // NEO.registerCandidate costs 1000 GAS: at most two per tree
+	candW   bool // the transaction carries the candidate key owner's witness
+	height  int  // index of the block the tree will run in
 }
 
 var flagChoices = []int{11, 3, 1, 0, 14, 10, 6, 9, 12, 4, 8, 2}
@@ -117,6 +121,10 @@ func (g *gen) node(x gx) *Node {
 	case 1:
 		return &Node{Op: nDel, K: g.r.Intn(4)}
 	case 2:
+		if x.c != entryID && g.bulk < 2 && g.r.Chance(1, 20) { // around the limit of 512 notifications per execution
+			g.bulk++
+			return &Node{Op: nNotify, K: g.r.Range(1, 9), Rep: []int{200, 256, 300, 500, 509, 510, 511, 512, 513}[g.r.Intn(9)]}
+		}
 		return &Node{Op: nNotify, K: g.r.Range(1, 9)}
 	case 3:
 		return &Node{Op: nIf, K: g.r.Intn(4), Body: g.list(x.sub(3))}
@@ -125,7 +133,12 @@ func (g *gen) node(x gx) *Node {
 		fl := g.flags(80)
 		y := x.sub(4)
 		y.c, y.f = callee, x.f.and(flagsOf(fl))
-		return &Node{Op: nCall, C: callee, Fl: fl, Body: g.list(y)}
+		if x.c >= 2 && x.c < numContracts && g.r.Chance(1, 3) { // contracts 2,3 hold method tokens of contracts 0,1
+			callee, fl = g.r.Intn(2), conTokFlags[[]int{0, 0, 0, 1, 2}[g.r.Intn(5)]]
+			y.c, y.f = callee, x.f.and(flagsOf(fl))
+			return &Node{Op: nCall, C: callee, Fl: fl, Tok: true, Body: g.list(y)}
+		}
+		return &Node{Op: nCall, C: callee, Fl: fl, Tok: g.r.Bool(), Body: g.list(y)}
 	case 5:
 		return &Node{Op: nLocal, Body: g.list(x.sub(3))}
 	case 6:
@@ -173,11 +186,12 @@ func (g *gen) node(x gx) *Node {
 			y.c, y.f = to, x.f.and(flagsOf(fl))
 			nat.Cb = g.list(y)
 		}
-		return &Node{Op: nNative, Fl: fl, Nat: nat}
+		return &Node{Op: nNative, Fl: fl, Nat: nat, Tok: g.r.Chance(1, 3)}
 	default:
 		fl := g.flags(90)
-		mk := func(nat *NatOp) *Node { return &Node{Op: nNative, Fl: fl, Nat: nat} }
-		switch v := g.r.Intn(30); {
+		tok := g.r.Chance(1, 3)
+		mk := func(nat *NatOp) *Node { return &Node{Op: nNative, Fl: fl, Nat: nat, Tok: tok} }
+		switch v := g.r.Intn(41); {
 		case v < 3:
 			return mk(&NatOp{Kind: natSetFee, Val: g.r.Range(1, 5000)})
 		case v < 6:
@@ -188,7 +202,7 @@ func (g *gen) node(x gx) *Node {
 			g.deploys++
 			return mk(&NatOp{Kind: natDeploy, Val: g.r.Intn(numAux)})
 		case v < 12:
-			return mk(&NatOp{Kind: natUpdate})
+			return mk(&NatOp{Kind: natUpdate, Val: []int{0, 0, 1, 2}[g.r.Intn(4)]})
 		case v < 13 && x.c == 3:
 			return mk(&NatOp{Kind: natDestroy})
 		case v < 15:
@@ -199,8 +213,8 @@ func (g *gen) node(x gx) *Node {
 			return mk(&NatOp{Kind: natDelWl, To: g.r.Intn(numContracts)})
 		case v < 21: // Notary deposit: GAS transfer to the Notary contract
 			return mk(&NatOp{Kind: natTransfer, To: notaryAcc, Amt: []int{minDeposit, minDeposit + 10000000, 5}[g.r.Intn(3)]})
-		case v < 26: // NEO transfer (never to contract 3, which may destroy itself)
-			to := []int{0, 1, 2, 6, 7}[g.r.Intn(5)]
+		case v < 26: // NEO transfer
+			to := []int{0, 1, 2, 3, 6, 7}[g.r.Intn(6)]
 			nat := &NatOp{Kind: natNeoTransfer, To: to, Amt: []int{0, 1, 2, 3, 5, 100}[g.r.Intn(6)]}
 			if to < numContracts && g.r.Bool() && x.depth > 0 {
 				nat.HasCb = true
@@ -209,15 +223,35 @@ func (g *gen) node(x gx) *Node {
 				nat.Cb = g.list(y)
 			}
 			return mk(nat)
-		default:
+		case v < 30:
 			return mk(&NatOp{Kind: natVote, Val: g.r.Intn(3) % 2})
+		case v < 32 && g.regs < 2:
+			g.regs++
+			return mk(&NatOp{Kind: natRegCand})
+		case v < 34:
+			return mk(&NatOp{Kind: natUnregCand, Val: b2i(g.candW)})
+		case v < 37:
+			if g.r.Chance(1, 6) {
+				return mk(&NatOp{Kind: natOracleFinish})
+			}
+			return mk(&NatOp{Kind: natOracleReq, Val: g.r.Intn(len(oracleURLs))})
+		case v < 39: // lockDepositUntil: around the block index (too early / minimal) and around a fresh deposit's till
+			till := []int{g.height - 1, g.height, g.height + 1, g.height + 2, g.height + 3, g.height + depositDelta - 2,
+				g.height + depositDelta - 1, g.height + depositDelta + 1}[g.r.Intn(8)]
+			return mk(&NatOp{Kind: natLock, Val: till})
+		default:
+			to := g.r.Intn(numContracts + 1)
+			if to == numContracts {
+				to = plainAccounts[g.r.Intn(len(plainAccounts))]
+			}
+			return mk(&NatOp{Kind: natWithdraw, To: to})
 		}
 	}
 }
 
 // tree generates a transaction's tree.
-func genTree(r *prng.R, o *hx.Out, natives bool) txPlan {
-	g := &gen{r: r, o: o, budget: 32, natives: natives}
+func genTree(r *prng.R, o *hx.Out, natives bool, height int) txPlan {
+	g := &gen{r: r, o: o, budget: 32, natives: natives, height: height, candW: r.Chance(3, 4)}
 	depth := r.Range(2, 4)
 	t := g.list(gx{entryID, depth, 3, false, flagsOf(15), false})
 	if len(t) == 0 {
@@ -241,6 +275,9 @@ func treeStats(o *hx.Out, l []*Node, depth int, maxDepth *int, nodes *int) {
 			o.Count("node:del")
 		case nNotify:
 			o.Count("node:notify")
+			if n.Rep > 1 {
+				o.Count("node:notify-bulk")
+			}
 		case nIf:
 			o.Count("node:ifp")
 			treeStats(o, n.Body, depth+1, maxDepth, nodes)
@@ -284,7 +321,8 @@ func treeStats(o *hx.Out, l []*Node, depth int, maxDepth *int, nodes *int) {
 			} else {
 				o.Count([]string{"", "node:policy-setFeePerByte", "node:policy-blockAccount", "node:policy-unblockAccount", "node:management-deploy",
 					"node:management-update", "node:management-destroy", "node:roles-designate", "node:policy-setWhitelistFee", "node:policy-removeWhitelistFee",
-					"node:neo-transfer", "node:neo-vote"}[n.Nat.Kind])
+					"node:neo-transfer", "node:neo-vote", "node:neo-registerCandidate", "node:neo-unregisterCandidate", "node:oracle-request",
+					"node:oracle-finish", "node:notary-lockDepositUntil", "node:notary-withdraw"}[n.Nat.Kind])
 				if n.Nat.Kind == natNeoTransfer {
 					treeStats(o, n.Nat.Cb, depth+1, maxDepth, nodes)
 				}
